@@ -497,10 +497,14 @@ def extract_fn(unit: str, file: str, item: str, mode: str, contracts, canary: bo
             spec_segs = [Seg(' -> %s\n' % cs.ret if cs.ret else '\n', rw('A4'))] + _render_block(cs.block, '                ', fn_label)
             info.clauses += cs.block.clauses
             ins_at = toks[cl.params_end_tok].end
+            prf = (' proof { %s } ' % cs.proof) if cs.proof else ''
             if cl.is_block:
                 edits.append((ins_at, ins_at, ('SEGS', spec_segs), rw('A4')))
+                if prf:
+                    b_open = toks[cl.body_start_tok].end
+                    edits.append((b_open, b_open, prf, {'kind': 'insert', 'fn': fn_label, 'vc': '%s:%d' % (c.vc_file, cs.vc_line), 'tags': c.serves}))
             else:
-                edits.append((ins_at, ins_at, ('SEGS', spec_segs + [Seg('                { ', rw('A4'))]), rw('A4')))
+                edits.append((ins_at, ins_at, ('SEGS', spec_segs + [Seg('                { ' + prf, rw('A4'))]), rw('A4')))
                 e_end = toks[cl.body_end_tok].end
                 edits.append((e_end, e_end, ' }', rw('A4')))
             info.rewrites.append('A4:closure%d' % k)
